@@ -151,7 +151,7 @@ def run_case(desc, ctx):
                     break
                 if d >= 3 and has_carry(idx - 1, bases):
                     out["nontrivial"].append(f"hf:{d}:{idx}")
-            out["evals"] += 1
+            out["evals"] += m  # one evaluation per sequence point compared with the exact radical inverse
         return out
 
     if kind == "halton-sampler":
